@@ -187,6 +187,17 @@ var skels = []skel{
 	{"extend-unnamed-id", "id", func(_ *E, id Ident) *Program {
 		return Query("T", &Op{K: "extend", Cols: []Col{{X: &E{K: "name", Parts: []Ident{id}}}}})
 	}},
+	// two holes of different kinds whose source spellings are the same text:
+	// a quoted name and a string holding that name's backtick-doubled spelling
+	{"both-where", "both", func(h *E, id Ident) *Program {
+		return Query("T", &Op{K: "where", X: Bin("==", &E{K: "name", Parts: []Ident{id}}, h)})
+	}},
+	{"both-project", "both", func(h *E, id Ident) *Program {
+		return Query("T", &Op{K: "project", Cols: []Col{{Name: &id, X: h}, {Name: idp("z"), X: Call("strcat", h, &E{K: "name", Parts: []Ident{id}})}}})
+	}},
+	{"both-reversed", "both", func(h *E, id Ident) *Program {
+		return Query("T", &Op{K: "where", X: Bin("!=", h, Num("1"))}, &Op{K: "summarize", Cols: []Col{{Name: idp("n"), X: Call("count")}}, HasBy: true, By: []Col{{Name: &id, X: h}}})
+	}},
 	// number holes
 	{"num-where", "num", func(h *E, _ Ident) *Program { return Query("T", &Op{K: "where", X: Bin("==", Name("a"), h)}) }},
 	{"num-take", "int", func(h *E, _ Ident) *Program { return Query("T", &Op{K: "take", X: h}) }},
@@ -289,6 +300,16 @@ func generate(w *mon.W) {
 			for _, f := range fills {
 				for _, dq := range []bool{false, true} {
 					c := &Case{Skel: sk.name, Kind: "str", Fill: f, DQ: dq}
+					w.Do(fmt.Sprintf("%s|%v|%s", sk.name, dq, f), func(r *mon.R) { Check(c, r) })
+				}
+			}
+		case "both":
+			for _, f := range fills {
+				if strings.Contains(f, "\n") || f == "" || len(f) > 300 {
+					continue
+				}
+				for _, dq := range []bool{false, true} {
+					c := &Case{Skel: sk.name, Kind: "both", Fill: f, DQ: dq}
 					w.Do(fmt.Sprintf("%s|%v|%s", sk.name, dq, f), func(r *mon.R) { Check(c, r) })
 				}
 			}
@@ -415,6 +436,9 @@ func compileWith(sk *skel, c *Case, fill string) (*compiled, string) {
 		h = StrLit(fill, c.DQ)
 	case "id":
 		id = Ident{Name: fill, Quoted: true}
+	case "both":
+		id = Ident{Name: fill, Quoted: true}
+		h = StrLit(strings.ReplaceAll(fill, "`", "``"), c.DQ)
 	default:
 		h = Num(fill)
 	}
@@ -482,6 +506,11 @@ func Check(c *Case, r *mon.R) {
 		wantNum = t[0].Num
 	}
 	allowed := map[string]bool{c.Fill: true, "render_prop_" + c.Fill: true}
+	var allowedStr map[string]bool
+	if c.Kind == "both" {
+		// each token kind has its own expected content
+		allowedStr = map[string]bool{strings.ReplaceAll(c.Fill, "`", "``"): true}
+	}
 	for _, im := range got.implicit {
 		allowed[im] = true
 	}
@@ -528,7 +557,7 @@ func Check(c *Case, r *mon.R) {
 				decodedOK++
 				continue
 			}
-			if !allowed[gt[i].Val] {
+			if ok := allowed[gt[i].Val]; (allowedStr != nil && k == sqlmini.TStr && !allowedStr[gt[i].Val]) || (!(allowedStr != nil && k == sqlmini.TStr) && !ok) {
 				r.Violation("", "content %q at the %s hole of %q is emitted as %s, which the target dialect decodes to %q: %s", c.Fill, c.Skel, got.src, gt[i].Text, gt[i].Val, got.sql)
 				return
 			}
